@@ -212,7 +212,11 @@ def engCaseRun (c : EngCase) : String :=
       let nl := e.vm.ghost.lookups.length
       let nm := e.vm.ghost.moves.length
       let (r, e') := request env cfg e input
-      (e', outs ++ [reqOutStr r ++ " " ++ stateOut e' nc nl nm], r.x = "panic" || r.f = "panic")) (e0, [], false)
+      -- mode lp: until the engine has been prepared the persister holds no state
+      let shown := if c.mode = "lp" && !e'.prepared
+        then s!"nostate cl={callsOut e'.vm.ghost nc} lk={lookupsOut e'.vm.ghost nl}"
+        else stateOut e' nc nl nm
+      (e', outs ++ [reqOutStr r ++ " " ++ shown], r.x = "panic" || r.f = "panic")) (e0, [], false)
     " # ".intercalate outs
   else
     let (_, _, outs, _) := c.inputs.foldl (fun (acc : Option Snap × Ghost × List String × Bool) input =>
